@@ -303,6 +303,41 @@ nd::harnesses! {
         assert!(a >= 3 * W, "... and both follow the two vtable pointers and the instance");
     }
 
+    /// A generic trait instantiated with an over-aligned type argument has the same vtable and object layout as any
+    /// other instantiation: one word per slot, pointer alignment (the type argument is only a marker).
+    #[kani::unwind(14)]
+    fn c04_overaligned_type_argument() {
+        let v: u32 = nd::any();
+        let o16 = trait_obj!(Sg(v) as Getter<A16>);
+        let o64 = trait_obj!(Sg(v) as Getter<u64>);
+        let vt16: &GetterVtbl<_, A16> = o16.get_vtbl_base();
+        assert!(size_of_val(vt16) == W && core::mem::align_of_val(vt16) == align_of::<usize>(), "exactly one function pointer per exported method");
+        assert!(size_of_val(&o16) == size_of_val(&o64) && core::mem::align_of_val(&o16) == core::mem::align_of_val(&o64));
+        assert!(size_of_val(&o16) == 3 * W, "vtable, instance, release function");
+        assert!(o16.fetch() == A16(v as u64 ^ 0x1616));
+    }
+
+    /// Object container = instance, context, temporary storage - in that order, when both the context and the temporary
+    /// storage are non-empty; the temporary-storage slots follow the declaration order of their methods (a `&self`
+    /// method declared before a `&mut self` one comes first).
+    #[kani::unwind(14)]
+    fn c04_container_order_with_context_and_ret_tmp() {
+        nd::obs::reset();
+        let v: u32 = nd::any();
+        let mark: u64 = nd::any();
+        let b = CBox::from(Pair { l: crate::corpus2::L(nd::obs::Pay::new(v)), r: crate::corpus2::L(nd::obs::Pay::new(!v)), k: 0 });
+        let inst_addr = &*b as *const Pair as usize;
+        let mut obj = trait_obj!((b, MarkCtx(mark)) as ViewEdit);
+        let base = &obj as *const _ as usize;
+        let words = base as *const usize;
+        assert!(unsafe { *words.add(1) } == inst_addr, "instance follows the vtable pointer");
+        assert!(unsafe { *words.add(3) } == mark as usize, "the context follows the instance, before the temporary storage");
+        let a = { let r = obj.view(); r as *const _ as *const u8 as usize - base };
+        let e = { let r = obj.edit(); r as *mut _ as *mut u8 as usize - base };
+        assert!(a >= 4 * W, "temporary storage follows the context");
+        assert!(a < e, "temporary-storage slots in declaration order");
+    }
+
     /// Single-trait object with a visible context: vtable, instance (box), context - in that order.
     #[kani::unwind(14)]
     fn c04_object_with_context_words() {
